@@ -37,8 +37,9 @@ Inductive cmpop := CLt | CLe | CGt | CGe.
 (* engine/context configurations whose options touch dispatch: the default engine and
    context; an engine created with yaql.iterableDicts (dictionaries pass Iterable());
    the legacy factory (sets that option itself) with the legacy context *)
-Inductive cfg := CDefault | CIterDicts | CLegacy.
-Definition all_cfgs : list cfg := [CDefault; CIterDicts; CLegacy].
+Inductive cfg := CDefault | CIterDicts | CLegacy
+               | CQuota.   (* engine with yaql.memoryQuota and yaql.limitIterators set *)
+Definition all_cfgs : list cfg := [CDefault; CIterDicts; CLegacy; CQuota].
 
 (* payload tags: which Python function an overload runs (mapped by the generator from the
    function's module and qualified name; anything it does not know is POther) *)
@@ -619,12 +620,14 @@ Definition canon (v : val F) : val F := match v with VTuple l => VList l | _ => 
    (`mod` with an infinite or NaN operand); only the dispatch is compared *)
 Inductive obs := OVal (v : val F) | OErr (e : err) | OFloatUnchecked | OOtherExc.
 
-(* `a OP b`, or `(a OP b) OP2 c` when c_then is given *)
+(* `a OP b`, or `(a OP b) OP2 c` when c_then is given; then the unary operators of c_post are
+   applied to the result, innermost first (sign chains: `- + a` is UPos with c_post [UNeg]) *)
 Record case := {
   c_cfg : cfg;
   c_op : op;
   c_args : list (val F);
   c_then : option (op * val F);
+  c_post : list op;
   c_ran : list tag;        (* the payloads the implementation ran, in order *)
   c_obs : obs;
 }.
@@ -654,19 +657,32 @@ Definition run_case (table : op -> optable) (c : case) : list tag * res F :=
     end
   end.
 
+Fixpoint run_post (table : op -> optable) (us : list op) (tr : list tag * res F) : list tag * res F :=
+  match us with
+  | [] => tr
+  | u :: us' =>
+    match snd tr with
+    | RVal v => run_post table us' (fst tr ++ tags_of (dispatch (table u) [kind_of F v]), eval_op F fo table u [v])
+    | RErr _ => tr
+    end
+  end.
+
+Definition run_full (table : op -> optable) (c : case) : list tag * res F :=
+  run_post table (c_post c) (run_case table c).
+
 Definition gcase_ok (tables : cfg -> op -> optable) (c : case) : bool :=
-  let '(tags, r) := run_case (tables (c_cfg c)) c in
+  let '(tags, r) := run_full (tables (c_cfg c)) c in
   list_eqb tag_eqb tags (c_ran c) && res_matches r (c_obs c).
 End Cases.
 
 Arguments OVal {F}. Arguments OErr {F}. Arguments OFloatUnchecked {F}. Arguments OOtherExc {F}.
 Arguments Build_case {F}.
 Arguments c_cfg {F}. Arguments c_op {F}. Arguments c_args {F}. Arguments c_then {F}.
-Arguments c_ran {F}. Arguments c_obs {F}.
+Arguments c_ran {F}. Arguments c_obs {F}. Arguments c_post {F}.
 
 (* the PrimFloat instance *)
 Definition fval := val float.
 Definition pcase := case float.
 Definition case_ok (tables : cfg -> op -> optable) (c : pcase) : bool :=
   gcase_ok float PF.ops PF.same_float tables c.
-Definition prun_case (table : op -> optable) (c : pcase) := run_case float PF.ops table c.
+Definition prun_case (table : op -> optable) (c : pcase) := run_full float PF.ops table c.
